@@ -234,12 +234,4 @@ theorem polyCompare_cost_eq_full (fixA : Bool) (p sc fc : Nat) (hne : perms p â‰
     simp only [polyCompare, polyCompareFull]
     rw [kept_final_min (perms p) hne sc _ _ hk, kept_final_min (perms p) hne sc _ _ (hf.kept sc)]
 
-theorem perms_length (p : Nat) (hp : p â‰¤ 4) : âˆ€ q âˆˆ perms p, q.length = p := by
-  match p, hp with
-  | 0, _ => decide
-  | 1, _ => decide
-  | 2, _ => decide
-  | 3, _ => decide
-  | 4, _ => decide
-
 end WhVerif.C11
